@@ -100,7 +100,10 @@ func verifH_C08_log() {
 		verifAdvance(verifSteps())
 		kinds := 5
 		if h == 3 && i == 0 {
-			kinds = 1 // thorough, three broadcasts: the first one is "to all" or "to r0" (the full product exceeds the time budget)
+			kinds = 1 // thorough, three broadcasts: the first one is "to all" or "to r0", the second one of four kinds (the full product exceeds the time budget)
+		}
+		if h == 3 && i == 1 {
+			kinds = 3
 		}
 		kind := verifChoose(0, kinds)
 		before := len(a.packets)
